@@ -55,7 +55,8 @@ VARIANTS = {('p%d' % i): {} for i in range(NPROC)}   # same binary, several proc
 # leaks are judged per case through __lsan_do_recoverable_leak_check (last integer of the observation), not at process exit
 HARNESS_ENV = {'LSAN_OPTIONS': 'leak_check_at_exit=0'}
 
-RULE = ('cases = operation histories; part A over H<=4 holders, one ValueMap with M<=3 names and a client pointer pool: '
+RULE = ('op 18 adopt_null(i, T, how): h[i].assimilate((T*)0) for every type tag (26 = (PBase*)0) - the holder must then be non-empty, of type T, without object - followed by clear / surrender / destructor / assignment of an empty holder (how mod 4), after which it must be empty, typed access refused, nothing constructed or destroyed for the null pointer; '
+        'cases = operation histories; part A over H<=4 holders, one ValueMap with M<=3 names and a client pointer pool: '
         'construct-from-value, copy-construct, assign value (from an independent object and - stream alias-assign - from an alias of the holder\'s own current value: '
         'h = value_cast<T>(h), h = value_cast<Record>(h).member, h = value_cast<vector<int>>(h)[0]), assign holder (incl. self), swap (incl. in-place<->heap, self), clear, '
         'client new/delete, assimilate, surrender (+reuse), write through value_cast, value_cast to every type, ValueMap::add '
@@ -131,10 +132,10 @@ def alias_kind(cur, ty, v):
 # ------------------------------------------------------------------------------------------------
 # decoding
 # ------------------------------------------------------------------------------------------------
-ARITY_A = {1: 3, 2: 2, 3: 3, 4: 2, 5: 2, 6: 1, 7: 2, 8: 1, 9: 2, 10: 1, 11: 2, 12: 2, 13: 2, 14: 1, 15: 0, 16: 2, 17: 3}
+ARITY_A = {1: 3, 2: 2, 3: 3, 4: 2, 5: 2, 6: 1, 7: 2, 8: 1, 9: 2, 10: 1, 11: 2, 12: 2, 13: 2, 14: 1, 15: 0, 16: 2, 17: 3, 18: 3}
 ARITY_B = {1: 1, 2: 2, 3: 2, 4: 1, 5: 2, 6: 2, 7: 1, 8: 3, 9: 1}
 NAMES_A = {1: 'cons_val', 2: 'cons_copy', 3: 'assign_val', 4: 'assign', 5: 'swap', 6: 'clear', 7: 'new', 8: 'delete', 9: 'assimilate',
-           10: 'surrender', 11: 'set', 12: 'cast', 13: 'map_add', 14: 'map_add_same', 15: 'map_clear', 16: 'map_get', 17: 'parse'}
+           10: 'surrender', 11: 'set', 12: 'cast', 13: 'map_add', 14: 'map_add_same', 15: 'map_clear', 16: 'map_get', 17: 'parse', 18: 'adopt_null'}
 NAMES_B = {1: 'new', 2: 'assign', 3: 'copy_cons', 4: 'reset', 5: 'swap', 6: 'push', 7: 'drop', 8: 'push_n', 9: 'pool_pop_n'}
 BULK_MAX = 100000    # largest k of push_n(c, i, k) / pool_pop_n(k); c == C is the client's pool of handle copies
 MAX_OPS = 120
@@ -323,6 +324,13 @@ class RefA:
                         self.pres[n] = True
                         self.nvb[n] = True
                     nt = True
+        elif k == 18:
+            # h[i].assimilate((T*)0): non-empty, type T, no object - printed inside the op - then cleared / surrendered / destroyed / assigned an empty holder
+            _, i, ty, how = o
+            if self.okh(i) and (0 <= ty < NTY or ty == ADOPT_DERIVED):
+                res = [1, static_ty(ty), 1]
+                self.h[i] = None
+                nt = True
         return res, nt
 
 
@@ -368,7 +376,7 @@ def oracle_a(d, obs):
         res, _ = ref.step(o)
         if res:
             if take(len(res)) != res:
-                sig.append({12: 'typed:cast-result-differs', 16: 'typed:map-lookup-differs', 17: 'valuemap:parse-result-differs'}[o[0]])
+                sig.append({12: 'typed:cast-result-differs', 16: 'typed:map-lookup-differs', 17: 'valuemap:parse-result-differs', 18: 'typed:null-adoption-not-a-typed-holder-without-object'}[o[0]])
                 break
         # ---- state dump ----
         owned = []
@@ -700,7 +708,11 @@ def gen_a(rnd, flavour):
                         i, j = j, i
             o = (5, i, j)
         elif r < 0.42:
-            o = (6, rnd.choice(ne) if ne and rnd.random() < 0.8 else hi())
+            if rnd.random() < 0.4:
+                # adopt a null pointer (of a tracked type, of the polymorphic base for tag 26), then leave that state in one of four ways
+                o = (18, rnd.choice(ne) if ne and rnd.random() < 0.6 else hi(), new_ty(), rnd.randrange(4))
+            else:
+                o = (6, rnd.choice(ne) if ne and rnd.random() < 0.8 else hi())
         elif r < 0.52:
             o = (7, new_ty(), rnd.randrange(1000))
         elif r < 0.56:
@@ -760,7 +772,7 @@ def gen_a_wild(rnd):
     tys = [rnd.randint(-3, 30) for _ in range(M)]
     ops = []
     for _ in range(rnd.randint(1, 25)):
-        k = rnd.randint(1, 17)
+        k = rnd.randint(1, 18)
         ops.append(tuple([k] + [rnd.choice([-1, 0, 0, 1, 1, 2, 3, 5, 11, 12, 14, 17, 18, 20, 21, 23, 24, 25, 26, 27, 999, 1000, 1001]) for _ in range(ARITY_A[k])]))
     c = [0, H, M] + tys
     for o in ops:
@@ -957,11 +969,24 @@ def poly_fixed():
     return out
 
 
+def null_fixed():
+    """adoption of a null pointer (assimilate<T>((T*)0), legal: delete (T*)0 is valid) for every type tag (26 = (PBase*)0) and every way out
+    (how 0 clear, 1 surrender, 2 destructor, 3 assignment of an empty holder): over a stored value of another type and over an empty holder;
+    afterwards the holder must be empty, typed access through T refused, and only the value stored before may have been destroyed"""
+    out = []
+    for ty in range(NTY + 1):
+        other = 4 if ty != 4 else 3
+        for how in range(4):
+            out.append(([0, 2, 0, 1, 0, other, 5, 18, 0, ty, how, 12, 0, static_ty(ty), 18, 1, ty, how, 12, 1, static_ty(ty), 18, 1, ty, how, 6, 1, 6, 0,
+                         1, 0, static_ty(ty), 9, 12, 0, static_ty(ty)], 'null-adoption'))
+    return out
+
+
 def gen(seed, tier):
     rnd = random.Random(seed * 7919 + 20)
     # thorough is 40k, not the 300k of DESIGN.md: every operation dumps the whole state (~1.5k integers per history), which the driver keeps in memory
     total = {'quick': 5000, 'thorough': 40000, 'search': 8000}.get(tier, 5000)
-    out = [(c, {'kind': k}) for c, k in FIXED + alias_fixed() + odd_fixed() + twin_fixed() + poly_fixed() + gen_magnitude()]
+    out = [(c, {'kind': k}) for c, k in FIXED + alias_fixed() + odd_fixed() + twin_fixed() + poly_fixed() + null_fixed() + gen_magnitude()]
     # one history per ordered pair of types: store a, store b, swap, copy, self-assign, cast both ways, clear
     for a in range(NTY):
         for b in range(NTY):
@@ -1050,7 +1075,8 @@ def shrink(case, fails):
     return mk(ops)
 
 
-LEVEL_TEXT = ('Machine-checked proofs (Coq) about an executable ownership model of ValueStore/ValueMap::add/NotifiedValue::doParse and of '
+LEVEL_TEXT = ('c20_null_adoption_cleared: an adopted null pointer (non-empty, typed, no object) is left by clear() with the holder empty and untyped and nothing destroyed for it. '
+              'Machine-checked proofs (Coq) about an executable ownership model of ValueStore/ValueMap::add/NotifiedValue::doParse and of '
               'IntrusiveSharedPtr: for every operation history over any number of holders the model refines plain value semantics '
               '(type and value of each holder, value_cast results; spelled out for every one of the 26 type tags: typed store then typed read / copy / swap partner return the stored value, every other type is refused - '
               'in particular the type of the same NAME that another translation unit declares (c20_typed_same_name_other_unit: the model\'s type test is equality of types, and the translator anchors that both checked '
